@@ -32,7 +32,7 @@ def work(lane):
         if n in EXTRA:
             cmd += ["--checks", EXTRA[n]]
         out = subprocess.run(cmd, stdout=subprocess.PIPE, stderr=subprocess.STDOUT, text=True).stdout
-        open(d + "/result.json", "w").write(out)
+        open(d + ("/result.%s.json" % os.environ["EVAL_ALT"] if os.environ.get("EVAL_ALT") else "/result.json"), "w").write(out)
         try:
             r = json.loads(out)
             cs = {k: ("caught" if v["rc"] == 1 else ("missed" if v["rc"] == 0 else "rc=%s" % v["rc"])) for k, v in r.get("checks", {}).items()}
